@@ -25,6 +25,8 @@ def check(chk, thorough=False):
     chk.run('C01.e', 'R-GUARD+R-WHO', "'success' is signalled for a sent bundle only in the ACK handler under END", lambda ob: c01e(tree, ob), floor=1)
     chk.run('C01.f', 'R-ORDER', 'every path from send_bundle_started to a return sends a segment or re-arms the queue', lambda ob: c01f(tree, ob), floor=1)
     chk.run('C01.j', 'R-FLOW', 'the send entry queues a file over exactly the octets passed in (byte-array conversion only)', lambda ob: __import__('sa.props.common', fromlist=['entry_fidelity']).entry_fidelity(tree, ob, 'tcpcl/session.py', 'ContactHandler.send_bundle_data'), floor=1)
+    chk.run('C01.l', 'R-PAIR', 'octets that follow a message in the same read are the next message: every probe class strips the padding layer (= C07.g)', lambda ob: __import__('sa.props.c07', fromlist=['c07g']).c07g(tree, ob), floor=3)
+    chk.run('C01.k', 'R-NOPATH', 'a readable socket is read: the receive callback has no path back to the event loop that skips recv() and asks to be called again (the watch is level-triggered; not reading means spinning, and with both ends waiting to write first, deadlock)', lambda ob: c01k(tree, ob), floor=1)
     chk.run('C01.i', 'R-GUARD', 'back-pressure is not taken for a dead connection: a send that would block keeps the octets and the connection', lambda ob: c01i(tree, ob), floor=2)
     chk.run('C01.g', 'R-WHO', 'the active-transfer state of each direction is written only by its own setup / teardown / pump functions', lambda ob: c01g(tree, ob), floor=6)
     chk.run('C01.h', 'R-SCHEMA', 'segment data and extension lengths are verified against what was read, also when empty (= C07.c)', lambda ob: _c07c(tree, ob), floor=6)
@@ -50,6 +52,8 @@ def _start_guard(tree, ob):
 
 
 def c01g(tree, ob):
+    from .common import per_instance_state
+    per_instance_state(tree, ob, SESS, ('Connection', 'Messenger', 'ContactHandler'))
     cls = tree.klass(SESS, 'ContactHandler')
     for attr, allowed in WRITERS.items():
         stores = stores_to_self_attr(cls, attr)
@@ -397,21 +401,51 @@ def c01c(tree, ob):
             ob.site(SESS, call, 'teardown only after the END segment')
         else:
             ob.violate(SESS, fv.qual, src(call), 'active transfer torn down without END having been sent', call)
-    # total length is the file size
-    tl = [st for st in walk_local(func) if isinstance(st, ast.Assign) and src(st.targets[0]) == 'self._tx_tmp.total_length']
-    st = one(tl, 'total_length assignment', ob)
-    if pm('self._tx_tmp.file.tell()', st.value) is None:
-        ob.violate(SESS, fv.qual, src(st), 'total length is not taken from the file position at end', st)
-    else:
-        seeks = [c for c in calls_in(func) if pm('self._tx_tmp.file.seek(0, os.SEEK_END)', c) is not None or pm('self._tx_tmp.file.seek(0, 2)', c) is not None]
-        rewinds = [c for c in calls_in(func) if pm('self._tx_tmp.file.seek(0)', c) is not None]
-        if not seeks or not fv.dominates(seeks[0], st)[0]:
-            ob.violate(SESS, fv.qual, src(st), 'total length is measured without seeking to the end first', st)
-        elif not rewinds or not all(fv.cfg.must_pass(fv.node(st), fv.node(rstmt), {fv.node(r) for r in rewinds})[0] for _ in [0]):
-            ob.violate(SESS, fv.qual, src(st), 'file is not rewound between measuring and reading', st)
-        else:
-            ob.site(SESS, st, 'total = size of the file, rewound before reading')
+    tx_measure(tree, ob, fv, rstmt)
 
+
+def _measure_idiom(ob, fv, rel, prefix, tail=None):
+    ''' seek(0, END); <prefix>.total_length = <prefix>.file.tell(); seek(0) -- in this order, the rewind on every path
+    from the measurement to `tail` (or to the end of the function) '''
+    func = fv.func
+    tl = [st for st in walk_local(func) if isinstance(st, ast.Assign) and src(st.targets[0]) == prefix + '.total_length']
+    st = one(tl, 'total_length assignment', ob)
+    if pm(prefix + '.file.tell()', st.value) is None:
+        ob.violate(rel, fv.qual, src(st), 'total length is not taken from the file position at end', st)
+        return
+    seeks = [c for c in calls_in(func) if pm(prefix + '.file.seek(0, os.SEEK_END)', c) is not None or pm(prefix + '.file.seek(0, 2)', c) is not None]
+    rewinds = [c for c in calls_in(func) if pm(prefix + '.file.seek(0)', c) is not None or pm(prefix + '.file.seek(0, 0)', c) is not None or pm(prefix + '.file.seek(0, os.SEEK_SET)', c) is not None]
+    goal = fv.node(tail) if tail is not None else fv.cfg.exit
+    if not seeks or not fv.dominates(seeks[0], st)[0]:
+        ob.violate(rel, fv.qual, src(st), 'total length is measured without seeking to the end first', st)
+    elif not rewinds or not fv.cfg.must_pass(fv.node(st), goal, {fv.node(r) for r in rewinds}, include_exc=False)[0]:
+        ob.violate(rel, fv.qual, src(st), 'the file is not rewound to its start between measuring and reading: a file handed over at a non-zero position is announced with its '
+                   'full length and read from the middle (or from its end: the transfer never reaches its announced length and never ends)', st)
+    else:
+        ob.site(rel, st, 'total = size of the file, rewound to 0 before reading')
+
+
+def tx_measure(tree, ob, fv=None, rstmt=None):
+    ''' total length is the file size; the measurement may live in _process_queue or in a BundleItem method it calls '''
+    if fv is None:
+        fv = FuncView(tree, SESS, 'ContactHandler._process_queue')
+        reads = [n for n in walk_local(fv.func) if isinstance(n, ast.Assign) and pm('self._tx_tmp.file.read($n)', n.value) is not None]
+        rstmt = one(reads, 'segment read in _process_queue', ob)
+    func = fv.func
+    direct = [st for st in walk_local(func) if isinstance(st, ast.Assign) and src(st.targets[0]) == 'self._tx_tmp.total_length']
+    if direct:
+        _measure_idiom(ob, fv, SESS, 'self._tx_tmp', rstmt)
+        return
+    item_cls = tree.klass(SESS, 'BundleItem')
+    helpers = {m.name for m in item_cls.body if isinstance(m, ast.FunctionDef)}
+    calls = [c for c in calls_in(func) if isinstance(c.func, ast.Attribute) and src(c.func.value) == 'self._tx_tmp' and c.func.attr in helpers]
+    measuring = []
+    for c in calls:
+        hv = FuncView(tree, SESS, 'BundleItem.' + c.func.attr)
+        if any(isinstance(x, ast.Assign) and src(x.targets[0]) == 'self.total_length' for x in walk_local(hv.func)):
+            measuring.append((c, hv))
+    (c, hv) = one(measuring, 'measurement of the file to send (direct or through a BundleItem method)', ob)
+    _measure_idiom(ob, hv, SESS, 'self')
 
 # ---------------------------------------------------------------- C01.d
 def c01d(tree, ob):
@@ -613,3 +647,21 @@ def c01i(tree, ob):
         ob.site(SESS, seen_wouldblock, 'would-block: octets kept, callback stays armed')
         ob.site(SESS, snd, 'send errors other than would-block close the connection')
 
+
+
+
+def c01k(tree, ob):
+    fv = FuncView(tree, SESS, 'Connection._rx_proxy')
+    recvs = [c for c in calls_in(fv.func) if pm('sock.recv($n)', c) is not None]
+    ob.require(recvs, 'recv call in _rx_proxy')
+    first = recvs[0]
+    for r in [x for x in walk_local(fv.func) if isinstance(x, ast.Return)]:
+        keep = not (isinstance(r.value, ast.Constant) and r.value.value in (False, None))
+        if not keep:
+            continue
+        ok = fv.cfg.must_pass(fv.cfg.entry, fv.node(r), {fv.node(first)}, include_exc=True)[0]
+        if ok:
+            ob.site(SESS, r, 'asks for another call only after a recv()')
+        else:
+            ob.violate(SESS, fv.qual, src(r) + ' without recv()', 'the receive callback can return to the event loop, asking to be called again, without reading: the socket stays readable, '
+                       'the peer\'s octets (its acknowledgements, which would empty our own backlog) are never taken, and two busy endpoints wait for each other forever', r)
